@@ -13,6 +13,9 @@ import (
 )
 
 func init() {
+	mutant(&Mutant{Name: "c06-comment-resets-the-bracket-count", Property: "C06", File: "xml/xml.go",
+		Old: "} else if t.TokenType != xml.TextToken && t.TokenType != xml.CommentToken {\n\t\t\tbrackets = 0", New: "} else if t.TokenType != xml.TextToken {\n\t\t\tbrackets = 0",
+		Rule: "R06.9", Construct: "bracket count survives a comment that is dropped"})
 	mutant(&Mutant{Name: "c06-bracket-count-reset-before-cdata", Property: "C06", File: "xml/xml.go",
 		Old: "\t\tt := *tb.Shift()\n\t\tif t.TokenType == xml.CDATAToken {", New: "\t\tt := *tb.Shift()\n\t\tif t.TokenType != xml.TextToken && t.TokenType != xml.CommentToken {\n\t\t\tbrackets = 0\n\t\t}\n\t\tif t.TokenType == xml.CDATAToken {",
 		Rule: "R06.9", Construct: "receives the bracket count of the preceding character data"})
@@ -1158,6 +1161,111 @@ func (c *Ctx) r069(rule, rel string) {
 			"the count of `]` that ended the character data written before is set to 0 ("+strings.Join(bad, ", ")+") for the same token for which it is then handed to the escaper: `x]]` followed by a CDATA section that becomes the text `>y` gives `x]]>y`, which is not well-formed")
 	}
 	c.R.Floor(rule, "escaper calls that carry the bracket count", k, 1)
+	// (e) a token that leaves no trace in the output does not end the run of character data: the count is not reset for
+	// a comment unless something is written for it
+	{
+		var tokVar, cntVar types.Object
+		var heads []*flow.Node
+		for _, q := range g.Nodes {
+			as, ok := q.Stmt.(*ast.AssignStmt)
+			if !ok || q.Kind != flow.KStmt || len(as.Lhs) != 1 || len(as.Rhs) != 1 {
+				continue
+			}
+			if strings.Contains(nospace(str(as.Rhs[0])), ".Shift()") {
+				if id, ok := as.Lhs[0].(*ast.Ident); ok && c.enclosingLoopDepth(as) == 1 {
+					tokVar = info.Defs[id]
+					if tokVar == nil {
+						tokVar = info.Uses[id]
+					}
+					heads = append(heads, q)
+				}
+			}
+		}
+		// the counter: the int variable handed to the escaper
+		for _, q := range g.Nodes {
+			a := q.Ast()
+			if a == nil || q.Kind != flow.KStmt {
+				continue
+			}
+			ast.Inspect(a, func(z ast.Node) bool {
+				ce, ok := z.(*ast.CallExpr)
+				if !ok || !isEscaper(ce) {
+					return true
+				}
+				for _, arg := range ce.Args {
+					if id, ok := ast.Unparen(arg).(*ast.Ident); ok && isIntType(info.TypeOf(id)) {
+						cntVar = info.Uses[id]
+					}
+				}
+				return true
+			})
+		}
+		writes := func(q *flow.Node) bool {
+			a := q.Ast()
+			if a == nil || (q.Kind != flow.KStmt && q.Kind != flow.KCond) {
+				return false
+			}
+			hit := false
+			ast.Inspect(a, func(z ast.Node) bool {
+				if ce, ok := z.(*ast.CallExpr); ok {
+					nm := calleeName(info, ce)
+					if strings.HasSuffix(nm, ".Write") || strings.HasSuffix(nm, ".MinifyMimetype") || strings.HasSuffix(nm, ".Minify") {
+						hit = true
+					}
+				}
+				return true
+			})
+			return hit
+		}
+		if tokVar != nil && cntVar != nil && len(heads) > 0 {
+			key := c.P.NameOf(tokVar) + ".TokenType == xml.CommentToken"
+			nz := 0
+			var bad []string
+			for _, z := range g.Nodes {
+				as, ok := z.Stmt.(*ast.AssignStmt)
+				if !ok || z.Kind != flow.KStmt || len(as.Lhs) != 1 || len(as.Rhs) != 1 {
+					continue
+				}
+				id, ok := as.Lhs[0].(*ast.Ident)
+				if !ok || info.Uses[id] != cntVar {
+					continue
+				}
+				if v, isK := intConst(info, as.Rhs[0]); !isK || v != 0 {
+					continue
+				}
+				nz++
+				z := z
+				p1 := g.Path(flow.Search{From: heads, Goal: func(q *flow.Node) bool { return q == z }, Assume: map[string]bool{key: true}, Track: true, TrackFields: true,
+					Avoid: func(q *flow.Node) bool {
+						for _, h := range heads {
+							if h == q {
+								return true
+							}
+						}
+						return false
+					}})
+				if p1 == nil {
+					continue
+				}
+				// the valuation at z along that path, plus the stipulation
+				init := g.ValuationAlong(p1, true)
+				init[key] = true
+				p2 := g.Path(flow.Search{From: []*flow.Node{z}, Goal: func(q *flow.Node) bool {
+					for _, h := range heads {
+						if h == q {
+							return true
+						}
+					}
+					return q.Kind == flow.KExit
+				}, Init: init, Assume: map[string]bool{key: true}, Track: true, TrackFields: true, Avoid: writes})
+				if p2 != nil {
+					bad = append(bad, c.pos(as))
+				}
+			}
+			c.R.Check(len(bad) == 0, rule, fmt.Sprintf("%s.Minifier.Minify/bracket count survives a comment that is dropped", rel), c.pos(fd), fmt.Sprintf("%d resets examined", nz),
+				"the count of `]` that ended the character data written before is set to 0 ("+strings.Join(bad, ", ")+") for a comment for which nothing is written: the text in front of the comment and the text behind it become one run in the output, and `]]<!--c-->&gt;` is written as `]]>`, which is not well-formed")
+		}
+	}
 	// (c) the escaper itself is the one-pass counter automaton
 	for _, efd := range load.FuncDecls(pk) {
 		if efd.Body == nil || efd.Recv != nil || efd.Type.Params == nil {
@@ -1323,4 +1431,18 @@ func (c *Ctx) r0610() {
 		c.R.Check(p == nil, rule, fmt.Sprintf("xml.Minifier.Minify/case xml.AttributeToken/value rewritten#%d only outside a processing instruction", n), c.pos(a), "unreachable while "+flag+" is set", "the value of a pseudo-attribute of a processing instruction is entity-decoded and re-quoted like an element's attribute: `<?pi x=\"&quot;\"?>` → `<?pi x='\"'?>` — references are not recognised in a PI, so its data changed")
 	}
 	c.R.Floor(rule, "rewrites of attribute values", n, 1)
+}
+
+// enclosingLoopDepth counts the for / range statements around a node inside its function.
+func (c *Ctx) enclosingLoopDepth(n ast.Node) int {
+	d := 0
+	for x := c.P.Parent(n); x != nil; x = c.P.Parent(x) {
+		switch x.(type) {
+		case *ast.ForStmt, *ast.RangeStmt:
+			d++
+		case *ast.FuncDecl, *ast.FuncLit:
+			return d
+		}
+	}
+	return d
 }
